@@ -153,7 +153,7 @@ Print Assumptions C03_Balance_rows.
 Theorem C03_check_case_sound : forall x r,
   check_case x = None -> required (cs_key x) = Some r ->
   eval_req (cs_ctx x) (cs_args x) r = false ->
-  cs_effect x = false /\ cs_class x <> OHaltOther.
+  cs_effect x = false /\ (cs_class x = OHaltOther -> is_silent_noop (cs_key x) = true).
 Proof. exact check_case_sound. Qed.
 Print Assumptions C03_check_case_sound.
 
